@@ -297,9 +297,9 @@ def null_space(A: npt.ArrayLike, dim: int | None = None) -> npt.NDArray[np.numbe
         dims = np.sum(s > tol, axis=-1, dtype=int)
         if not np.all(dims == dims.flat[0]):
             raise ValueError("Cannot calculate the null spaces of matrices when the spaces have different dimensions.")
-        dim = -dims.flat[0]
+        dim = A.shape[-1] - dims.flat[0]
 
-    Q = np.swapaxes(vh[..., -dim:, :], -1, -2).conj()
+    Q = np.swapaxes(vh[..., vh.shape[-2] - dim :, :], -1, -2).conj()
     return Q
 
 
